@@ -364,7 +364,9 @@ Section Syntax.
         end
     end.
 
-  (* CaseTag._parse_when_expression: a failing primitive after a separator ends the list quietly; no end-of-stream check *)
+  (* CaseTag._parse_when_expression in STRICT mode (the mode of the round trip): a failing primitive after a separator is a syntax
+     error (since fix C03-when-list-strict; before it, and still in lax mode, it ended the list quietly -- [parse_when_loop_old]); no
+     end-of-stream check *)
   Fixpoint parse_when_loop (fuel : nat) (acc : list prim) (ts : list etok) {struct fuel} : res (list prim) :=
     match fuel with
     | O => OutOfFuel
@@ -373,7 +375,7 @@ Section Syntax.
         | EComma :: r | EOr :: r =>
             match pprim r with
             | Ok p => parse_when_loop f (fst p :: acc) (snd p)
-            | Err _ => Ok (rev acc)
+            | Err e => Err e
             | OutOfFuel => OutOfFuel
             end
         | _ => Ok (rev acc)
@@ -381,6 +383,22 @@ Section Syntax.
     end.
   Definition parse_when (ts : list etok) : res (list prim) :=
     do p <- pprim ts; parse_when_loop (S (length ts)) [fst p] (snd p).
+  Fixpoint parse_when_loop_old (fuel : nat) (acc : list prim) (ts : list etok) {struct fuel} : res (list prim) :=
+    match fuel with
+    | O => OutOfFuel
+    | S f =>
+        match ts with
+        | EComma :: r | EOr :: r =>
+            match pprim r with
+            | Ok p => parse_when_loop_old f (fst p :: acc) (snd p)
+            | Err _ => Ok (rev acc)
+            | OutOfFuel => OutOfFuel
+            end
+        | _ => Ok (rev acc)
+        end
+    end.
+  Definition parse_when_old (ts : list etok) : res (list prim) :=
+    do p <- pprim ts; parse_when_loop_old (S (length ts)) [fst p] (snd p).
 
   Definition parse_cycle (ts : list etok) : res payload :=
     do g <- (if is_colon (hd_tok (tl ts)) then
